@@ -34,6 +34,7 @@ type modelResp struct {
 	signerIdx              int  // candidate index when signedBy == byIssuer
 	embeddedIssuedBy       int  // candidate index that signed the embedded certificate, -1 = stranger
 	embeddedEKU            bool // embedded certificate carries id-kp-OCSPSigning
+	otherEKU               bool // ... carries an extended key usage extension WITHOUT id-kp-OCSPSigning (any other purpose, anyExtendedKeyUsage included)
 	serial                 *big.Int
 	status                 int
 	nextUpdate             time.Time
@@ -102,6 +103,13 @@ func modelParse(b []byte, cert, issuer *x509.Certificate) (*xocsp.Response, erro
 			r.obj.Certificate = &x509.Certificate{}
 			if r.embeddedEKU {
 				r.obj.Certificate.ExtKeyUsage = []x509.ExtKeyUsage{x509.ExtKeyUsageOCSPSigning}
+			} else if r.otherEKU {
+				// some other purpose: every value of the enumeration except OCSPSigning (ExtKeyUsageAny = 0 included)
+				u := x509.ExtKeyUsage(verifrt.NondetInt("otherEKU"))
+				verifrt.Assume(u >= x509.ExtKeyUsageAny)
+				verifrt.Assume(u <= x509.ExtKeyUsageMicrosoftKernelCodeSigning)
+				verifrt.Assume(u != x509.ExtKeyUsageOCSPSigning)
+				r.obj.Certificate.ExtKeyUsage = []x509.ExtKeyUsage{u}
 			}
 		}
 	}
@@ -346,6 +354,9 @@ func symResp(presented *big.Int, other *big.Int, ncand int) *modelResp {
 	r.signerIdx = verifrt.Choose(ncand)
 	r.embeddedIssuedBy = verifrt.Choose(ncand+1) - 1
 	r.embeddedEKU = verifrt.Choose(2) == 1
+	if r.hasEmbedded && !r.embeddedEKU {
+		r.otherEKU = verifrt.Choose(2) == 1
+	}
 	r.serial = presented
 	if verifrt.Choose(2) == 1 {
 		r.serial = other
